@@ -50,6 +50,9 @@ var FedCorpus = []corpusCase{
 	{"D48-join-under-narrowing-fragment-object", fixedIn(`{ user(id: "u2") { pet { ... on Cat { ... on Cat { toys } } } } }`), ""},
 	{"D61-branch-beneath-skipped-fragment", FedInput{Spec: FixedFed2(), StoreSeed: 5, Query: `query ($v: Boolean!) { allUsers { ... on User @skip(if: $v) { photos { x1: url } } photos { likes } } }`, Vars: map[string]interface{}{"v": true}}, "the dependent step joined at allUsers/photos ignored the @skip of the fragment its field was found under"},
 	{"D61-branch-beneath-skipped-field", FedInput{Spec: FixedFed2(), StoreSeed: 5, Query: `query ($v: Boolean!) { allUsers { photos @skip(if: $v) { x1: url } photos { likes } } }`, Vars: map[string]interface{}{"v": true}}, ""},
+	{"D63-fragment-spread-again-beneath-a-field", FedInput{Spec: FixedFed(), StoreSeed: 5, Query: `{ allUsers { ...F photos { owner { ...F } } } } fragment F on User { firstName lastName }`}, "the second place of the spread, inside a step created with its own part of F, lost the other service's fields"},
+	{"D63-fragment-parts-differ-between-places", FedInput{Spec: FixedFed4(), StoreSeed: 5, Query: `{ allUsers { ...F friends { ...F } } } fragment F on User { lastName photos { likes } }`}, "one name cannot stand for two different parts: the later place gets its part inline"},
+	{"D63-fragment-with-inline-content", FedInput{Spec: FixedFed4(), StoreSeed: 5, Query: `{ allUsers { ...F friends { ...F } } } fragment F on User { ... on User { lastName photos { likes } } }`}, ""},
 	{"D61-branch-beneath-included-fragment", FedInput{Spec: FixedFed2(), StoreSeed: 5, Query: `query ($v: Boolean!) { allUsers { ... @include(if: $v) { friends { photos { likes } } } friends { nick } } }`, Vars: map[string]interface{}{"v": false}}, ""},
 	{"abstract-boundary-two-conditions-nested", FedInput{Spec: FixedFed3(), StoreSeed: 5, Query: `{ pets { ... on Cat { ... { toys } } ... on Dog { ... { barks } } } }`}, "selections under two type conditions of one abstract field, same remote service, reached through nested fragments (seeded change S-C01-2)"},
 	{"abstract-boundary-two-conditions-named", FedInput{Spec: FixedFed3(), StoreSeed: 5, Query: `{ me { pet { ...C ...D } } } fragment C on Cat { ... on Cat { toys } } fragment D on Dog { ... on Dog { barks } }`}, ""},
@@ -140,7 +143,7 @@ func GenFedInput(c *Ctx, i int, forC string) (FedInput, map[string]bool) {
 		in.Query = "{ " + sites[r.Intn(len(sites))] + " } " + bodies[r.Intn(len(bodies))]
 		in.Vars = nil
 		if r.Intn(2) == 0 {
-			in.Spec = []FedSpec{FixedFed(), FixedFed2(), FixedFed3()}[r.Intn(3)]
+			in.Spec = []FedSpec{FixedFed(), FixedFed2(), FixedFed3(), FixedFed4()}[r.Intn(4)]
 			spec = in.Spec
 		}
 		feats = map[string]bool{"fragment-spread-at-two-places": true}
